@@ -62,6 +62,7 @@ type Method struct {
 	Doc       int    `json:"doc,omitempty"`     // lines of javadoc above the declaration
 	OneLine   bool   `json:"oneLine,omitempty"` // getter/setter written on a single line
 	BraceNext bool   `json:"braceNext,omitempty"`
+	SplitHead bool   `json:"splitHead,omitempty"` // modifiers and return type on one line, name and parameters on the next
 	Body      []Stmt `json:"body,omitempty"`
 }
 
@@ -375,7 +376,21 @@ func (w *jw) method(depth int, m Method, inInterface bool) methodTruth {
 		t.CloseLine = w.ln(depth, "}")
 		return t
 	}
-	t.DeclLine = w.openBrace(depth, head, m.BraceNext)
+	if m.SplitHead {
+		// the declaration starts on the line of its modifiers and return type
+		first := ret
+		if m.Mods != "" {
+			first = m.Mods + " " + ret
+		}
+		t.DeclLine = w.ln(depth, first)
+		rest := m.Name + "(" + paramList(m.Params) + ")"
+		if m.Throws {
+			rest += " throws Exception"
+		}
+		w.openBrace(depth+2, rest, false)
+	} else {
+		t.DeclLine = w.openBrace(depth, head, m.BraceNext)
+	}
 	for _, s := range m.Body {
 		w.stmt(depth+1, s, true, &t)
 	}
@@ -1482,6 +1497,7 @@ func genNormalMethod(t *rapid.T, name string, big bool) Method {
 	m.Params = aroundOr(t, "params", []int{4, 5, 6, 7}, 0, 9, 4)
 	m.Throws = rapid.IntRange(0, 4).Draw(t, "throws") == 4
 	m.BraceNext = rapid.IntRange(0, 3).Draw(t, "braceNext") == 3
+	m.SplitHead = !m.BraceNext && rapid.IntRange(0, 4).Draw(t, "splitHead") == 4
 	if rapid.IntRange(0, 3).Draw(t, "hasDoc") == 3 {
 		m.Doc = rapid.IntRange(2, 4).Draw(t, "doc")
 	}
@@ -1524,7 +1540,7 @@ func genNormalMethod(t *rapid.T, name string, big bool) Method {
 	if m.Ret != "" {
 		used++
 	}
-	if m.BraceNext {
+	if m.BraceNext || m.SplitHead {
 		used++
 	}
 	target := aroundOr(t, "length", []int{29, 30, 31, 32}, 1, 48, 5)
